@@ -193,6 +193,15 @@ Example C06_operand_order :
      Ok ([KAuto 0 "?"; KTxt "+"; KTxt """a"""; KTxt "-"; KAuto 1 "?"], [("", VInt 1); ("", VInt 2)]).
 Proof. split; vm_compute; reflexivity. Qed.
 
+(* explicitly named placeholders (ParameterValueWrapper(PyformatParameter("status"), v), custom placeholder generators):
+   for EVERY name the dict classes recover exactly the name from the placeholder text, and the real classes do so on a pool of
+   names that stress the slicing (names made of / ending in the delimiter characters) *)
+Theorem C06_explicit_names :
+  (forall sty name, is_dict sty = true -> param_key sty (explicit_text sty name) = name)
+  /\ forallb named_sample_ok ph_named_samples = true.
+Proof. split; [exact key_of_explicit|exact ph_named_samples_ok]. Qed.
+Print Assumptions C06_explicit_names.
+
 (* ---- non-vacuity ---- *)
 Definition ex_stmt : stmt :=
   SSelect (Sel false
